@@ -254,7 +254,9 @@ def s2c_load(ctx, maxlen):
 
 KEYS = ["TITLE", "title", "Artist", "ATTACKS", "attacks", "DISPLAYBPM", "NOTES", "notes", "Notes",
         "VERSION", "version", "Version", "NOTEDATA", "notedata", "STEPSTYPE", "BPMS", "X1", "猫", "NOTES2", "FREEZES",
-        "MUSIC", "Banner", "BACKGROUND", "JACKET", "CDTITLE", "LYRICSPATH", "ANIMATIONS", "STOPS", "BGCHANGES", "OFFSET"]
+        "MUSIC", "Banner", "BACKGROUND", "JACKET", "CDTITLE", "LYRICSPATH", "ANIMATIONS", "STOPS", "BGCHANGES", "OFFSET",
+        # keys with characters that mean something to format strings, patterns and shells - and nothing to MSD
+        "A{B}", "X{}", "K{0}", "A{{B}}", "P%s", "100%", "K[1]", "A*", "Q?", "K.1", "a-b", "(X)", "$V", "^K", "A|B", "K+", "IT'S", 'Q"T', "T\tK", "É", "<K>", "K=V", "K,L", "K&L", "~K", "@K", "`K`", "!K"]
 
 
 def gen_param(rng):
